@@ -563,6 +563,69 @@ func ruleC07OpsCase(p *Prog, a *Anchors, r *Report, levels map[string]*gramLevel
 				}
 			}
 		}
+		// every arithmetic/ordering label computes with its own Go operator on float AND on integer values — in the
+		// case itself or in a helper it calls. (A three-way compare helper answers `<=` as "not greater", which is
+		// true for NaN; only the operator itself carries float semantics.)
+		for l, blk := range labels {
+			ops, isNum := goOpFor[l]
+			if !isNum {
+				continue
+			}
+			fns := map[*ssa.Function]bool{}
+			blocks := ReachableBlocks(blk)
+			var viaHelpers []string
+			for b := range blocks {
+				if len(labelsOfBlock(b)) != 1 && b != blk {
+					continue // shared tail blocks
+				}
+				for _, in := range b.Instrs {
+					if ci, ok := in.(ssa.CallInstruction); ok {
+						if cal := ci.Common().StaticCallee(); cal != nil && p.InPkg(cal) && cal.Blocks != nil && cal.Signature.Recv() == nil {
+							fns[cal] = true
+							viaHelpers = append(viaHelpers, cal.Name())
+						}
+					}
+				}
+			}
+			hasFloat, hasInt := false, false
+			scan := func(bs []*ssa.BasicBlock, only map[*ssa.BasicBlock]bool) {
+				for _, b := range bs {
+					if only != nil && !only[b] {
+						continue
+					}
+					for _, in := range b.Instrs {
+						x, ok := in.(*ssa.BinOp)
+						if !ok || !isNumeric(x.X.Type()) {
+							continue
+						}
+						if _, isC := x.Y.(*ssa.Const); isC {
+							continue
+						}
+						for _, t := range ops {
+							if x.Op == t {
+								if bt, _ := x.X.Type().Underlying().(*types.Basic); bt != nil && bt.Info()&types.IsFloat != 0 {
+									hasFloat = true
+								} else {
+									hasInt = true
+								}
+							}
+						}
+					}
+				}
+			}
+			scan(f.Blocks, blocks)
+			for h := range fns {
+				scan(h.Blocks, nil)
+			}
+			key := en.typ + ":" + l + " direct"
+			sort.Strings(viaHelpers)
+			switch {
+			case l == "%" && hasInt, hasFloat && hasInt:
+				r.OK(key, p.InstrPos(blk.Instrs[0]), "computed with Go's %v on float and integer operands", ops)
+			default:
+				r.Bad(key, p.InstrPos(blk.Instrs[0]), "case %q is not computed with Go's %v on both float and integer operands (float: %v, int: %v; helpers called: %v): an indirect formulation (three-way compare, negated opposite) differs for NaN and mixed kinds", l, ops, hasFloat, hasInt, viaHelpers)
+			}
+		}
 		// == / != / <> / in: EqualValueTo / Contains with the right polarity and operand order
 		for l, blk := range labels {
 			if l != "==" && l != "!=" && l != "<>" && l != "in" {
